@@ -14,7 +14,7 @@ RULE = ('Base documents: generated conformant documents of every selectable map 
         'non-trivial = distinct (map, node path, fault kind) triples decided.')
 ASSUMPTIONS = ['a syntax fault may be reported at any element position the violated note names', 'unknown / out-of-place segments may be reported with segment code 1 or 2',
                'faults are only injected where they cannot change how the segment or its neighbours are matched (no qualifiers, HL/LX numbers, BHT02), except the structural kinds, which are constructed so that the successor still matches its own node first']
-REQUIRED_COUNTERS = ['bases:with-interleaved-sibling-loops', 'bases:with-X,Y,X-sibling-loops', 'missing_segment:in-later-instance-after-sibling-loop', 'bad_code:member-of-another-external-set-seen-earlier', 'missing_required:whole-composite', 'missing_required:whole-composite:at-the-tail', 'bad_qualified_datetime:format:DT', 'bad_qualified_datetime:format:TM', 'bad_qualified_datetime:format:RD8', 'faults'] + ['kind:' + k for k in faults.ALL_KINDS] + ['localised', 'others-accepted-checked']
+REQUIRED_COUNTERS = ['bases:with-interleaved-sibling-loops', 'bases:with-X,Y,X-sibling-loops', 'missing_segment:in-later-instance-after-sibling-loop', 'bad_code:member-of-another-external-set-seen-earlier', 'bad_code:code-list-on-non-ID-element', 'missing_required:whole-composite', 'missing_required:whole-composite:at-the-tail', 'bad_qualified_datetime:format:DT', 'bad_qualified_datetime:format:TM', 'bad_qualified_datetime:format:RD8', 'faults'] + ['kind:' + k for k in faults.ALL_KINDS] + ['localised', 'others-accepted-checked']
 MIN_CASES = {'quick': 1200, 'thorough': 30000}
 WATCHDOG_S = {'quick': 1200, 'thorough': 7200}
 
@@ -169,6 +169,8 @@ def run(ctx):
                         ctx.count('not-applicable:' + kind)
                         break
                     case = {'map': e['file'], 'entry': e, 'gen_seed': seed, 'params': kw, 'fault': f.describe(), 'text': f.doc.text() if len(f.doc.recs) < 120 else None}
+                    if f.note == 'code-list-on-non-ID-element':
+                        ctx.count('bad_code:code-list-on-non-ID-element')
                     if f.note == 'member-of-another-external-set-seen-earlier':
                         ctx.count('bad_code:member-of-another-external-set-seen-earlier')
                     if f.note and f.note.startswith('format:'):
